@@ -90,6 +90,8 @@ def check_property(prop, tier="quick", seed=0, update_lock=False):
         fun_results.append(r)
         if r.status != "ok":
             undecided.append({"function": con.target, "status": r.status, "reason": r.reason})
+        elif r.partial:
+            undecided.append({"function": con.target, "status": "out-of-date", "reason": r.partial})
         for ob in r.obligations:
             all_obs.append((ob, "own" if prop == (con.props[0] if con.props else prop) else "dependency"))
     for lem in lemmas:
